@@ -254,6 +254,43 @@ fn run_variants(args: &Args) {
             }
         }
         emit(&mut out, json!({"ev": "states", "base": obs::chars(base), "list": sweep}));
+        // two-feature variations: the contents of two squares exchanged (every pair of squares holding different
+        // things, kings included) - e.g. a white and a black knight changing places
+        if cells.len() == 64 {
+            let occupied: Vec<usize> = (0..64).filter(|&i| cells[i] != '.').collect();
+            for (ai, &a) in occupied.iter().enumerate() {
+                for &b in occupied.iter().skip(ai + 1) {
+                    if cells[a] == cells[b] {
+                        continue;
+                    }
+                    let mut v = cells.clone();
+                    v.swap(a, b);
+                    let mut placement = String::new();
+                    for r in 0..8 {
+                        let mut run = 0;
+                        for k in 0..8 {
+                            let x = v[r * 8 + k];
+                            if x == '.' {
+                                run += 1;
+                            } else {
+                                if run > 0 {
+                                    placement.push_str(&run.to_string());
+                                    run = 0;
+                                }
+                                placement.push(x);
+                            }
+                        }
+                        if run > 0 {
+                            placement.push_str(&run.to_string());
+                        }
+                        if r < 7 {
+                            placement.push('/');
+                        }
+                    }
+                    variants.push(rest(&placement, &f[1], &f[2], &f[3]));
+                }
+            }
+        }
         for v in variants {
             let hv = hash_of(&v);
             emit(&mut out, json!({"ev": "var", "base": obs::chars(base), "var": obs::chars(&v), "b": hb, "v": hv}));
